@@ -101,6 +101,10 @@ def check(run):
     loadfam.replay_load(run, cases, "Trace_Keys", "Trace_Keys.cfg", build_features=("json", "suppress"),
                         variant="json-suppress", key_of=lambda c, r: "suppress;" + _key(c, r), tag="_suppress",
                         trace_env={"SUPPRESS": "1"})
+    # the code generator must show exactly the parser's warnings (one `#[deprecated(note = ..)]` item each, with the same text)
+    import os
+    loadfam.replay_load(run, cases, "Trace_Keys", "Trace_Keys.cfg", package="drv_codegen", key_of=lambda c, r: "codegen;" + _key(c, r), tag="_codegen",
+                        per_case_timeout=60, trace_env={"SUPPRESS": "0", "LOADTRACE": os.path.join(run.workdir, "load_default", "trace.ndjson")})
     import random as _r
     sample = cases if len(cases) <= 800 else _r.Random(run.seed).sample(cases, 800)
     loadfam.replay_load(run, loadfam.namespaced(sample), "Trace_Keys", "Trace_Keys.cfg", key_of=lambda c, r: "namespaced;" + _key(c, r), tag="_ns",
@@ -112,7 +116,7 @@ def check(run):
                        "reachable for every locale, every path that only exists in another locale must not compile",
                        "key universe {k1,k2,x{u},g{s1,s2,y,h{t,z}}}; every per-locale tree over it (bounded per tier) against 4 default trees",
                        "each project has the same tree in a locale without inherits (fr) and one with `inherits` (de)",
-                       "L1: Warnings and BuildersKeys of parse_locales()"]
+                       "L1: Warnings and BuildersKeys of parse_locales(); code generator: the notes of the deprecated items it emits are the parser's warning texts, as a multiset"]
     return run.finish("one project per (default tree, locale tree); non-trivial when the trees differ",
                       {"distinct_nontrivial": sum(1 for c in cases if c["abs"]["def"] != c["abs"]["loc"])})
 
